@@ -7,6 +7,9 @@ A case is {"cls": 0..4, "L": initial max_lag, "ops": [...]}; ops (lags are magni
   ["re", layer, u, v]  remove_edge       ["res", layer, [[u, v], ...]]  remove_edges_from
   ["av", x] add_variable   ["rv", x] remove_variable   ["sml", n] set_max_lag   ["cp"] G = G.copy()
   ["or", u, v] orient_uncertain_edge (CPDAG / PAG)     ["he", layer, u, v] has_edge (query; its answer is compared)
+  ["avs", [x..]] add_variables_from   ["rvs", [x..]] remove_variables_from (unknown / repeated names allowed)
+  ["an", u] add_node   ["ans", [u..]] add_nodes_from   ["rns", [x..]] remove_nodes_from(all nodes of the distinct, present variables)
+  ["bad", name] a call with a malformed argument (table BAD_CALLS): must raise and change nothing
 After every op the full observable state is compared with the model: raised?, max_lag, node set, per layer the
 layer's own max_lag and its edge set; for copy additionally the class of the copy, and every original a copy was
 taken from must never change again.  After a raise the model state is the pre-state, so the comparison is the
@@ -36,7 +39,9 @@ LEVEL_TEXT = ("Coq theorems, all unbounded over histories (induction over the op
 LEVEL_NOTE = ("The model is the INTENDED machine: before the repairs 35e75c8 / 9a3603d of /repo the check reported set_max_lag (growth incomplete, shrink raises after "
               "overwriting max_lag, mixed-edge layers keep their old max_lag, CPDAG TypeError) and non-atomic add_edges_from / "
               "remove_edges_from; fixes/C13-set-max-lag.patch and fixes/C13-batch-atomic.patch (both applied) repaired them. The property lets a raising "
-              "op register new variables; the harness then removes them again (resync) to stay aligned with the stricter model. Exception "
+              "op register new variables; the harness then removes them again (resync) to stay aligned with the stricter model. Open on HEAD e84e538 "
+              "until fixes/C13-set-max-lag-integer.patch is applied: set_max_lag with a float lag writes max_lag before it raises (or "
+              "does not raise at all on a graph without variables). Exception "
               "classes are not compared. Modelled, not verified: networkx containers, tsdict key validation (as the node-validity "
               "guard), the CPDAG insertion guard (C03's subject, transcribed). Outside the model: edge_type='all', positive time "
               "indices, attributes, non-stationary instances.")
@@ -46,7 +51,8 @@ LAYER_NAMES = {0: [None], 1: [None], 2: ["directed", "bidirected"], 3: ["directe
 ORDERED = {0: [0], 1: [1], 2: [1, 0], 3: [1, 0], 4: [1, 1, 0, 0]}
 CLS_NAMES = ["StationaryTimeSeriesGraph", "StationaryTimeSeriesDiGraph", "StationaryTimeSeriesMixedEdgeGraph",
              "StationaryTimeSeriesCPDAG", "StationaryTimeSeriesPAG"]
-OPC = {"ae": 0, "aes": 1, "re": 2, "res": 3, "av": 4, "rv": 5, "sml": 6, "cp": 7, "or": 8, "he": 9}
+OPC = {"ae": 0, "aes": 1, "re": 2, "res": 3, "av": 4, "rv": 5, "sml": 6, "cp": 7, "or": 8, "he": 9,
+       "avs": 10, "rvs": 11, "an": 12, "ans": 13, "bad": 14, "rns": 11}
 
 RULE = ("histories per class shape (5 shapes): every sequence of exactly 2 (quick) / 3 (thorough) ops over a reduced alphabet "
         "(per layer: add lagged, add contemporaneous, remove lagged; add/remove variable, set_max_lag 1/2/3, copy, one batch) from "
@@ -57,7 +63,12 @@ RULE = ("histories per class shape (5 shapes): every sequence of exactly 2 (quic
         "orient_uncertain_edge on CPDAG / PAG, the bulk forms, add / has_edge in the next and in an unknown layer, naming the edge "
         "earlier-first and later-first, by the inserted copy and by a homologous copy one lag back, then an observing op; a quarter of it "
         "and a third of the random mixed-edge histories with the first edge-type layer removed and re-added so that edge_types has "
-        "another order); a stale-state stream (warm-up "
+        "another order); a bulk / malformed stream (on a graph with edges at several lags: "
+        "remove_variables_from / add_variables_from with unknown and repeated names first / in the middle / last, remove_nodes_from of all "
+        "nodes of listed variables, add_node / add_nodes_from with a lag outside the window first / last and duplicates, and the 33 "
+        "malformed calls of BAD_CALLS (None / scalar / 1-tuple / positive or str lag for a node, None / scalar / wrong-arity elements after a "
+        "valid one in bulk lists, None / str / float / negative max_lag, unhashable variable), each followed by copy / set_max_lag / "
+        "has_edge / another bulk removal; a raise must leave everything unchanged); a stale-state stream (warm-up "
         "queries, then a node-count-preserving edit: swap a variable, move an edge to another variable / lag / layer, then set_max_lag / "
         "copy / remove_variable); seeded random histories of length 20 (quick) / 150 (thorough) over 2-3 variables, max_lag 1..4, lags "
         "0..max_lag+1, all op kinds, duplicates in batches; the same with variables named like lag tuples ((v,0), (v,-1)) and with "
@@ -73,7 +84,13 @@ TRUSTED = ["networkx Graph/DiGraph add_edge/remove_edge/remove_node/has_edge tak
 ASSUMPTIONS = ["edge type always passed explicitly for mixed-edge classes (edge_type='all' is C03's subject)",
                "undirected-type layers and the circle layer are called with the earlier node first (documented convention); "
                "a later-node-first add_edge must raise (15% of the random edge arguments)",
-               "positive time indices and non-tuple nodes are outside the model (lags are nat magnitudes)",
+               "positive time indices and non-tuple nodes are outside the model's state (lags are nat magnitudes); calls with them are "
+               "the model op Bad: raise, nothing changes",
+               "remove_node / remove_nodes_from remove single (variable, lag) nodes and are documented NOT to keep variables complete "
+               "('time-series graphs operate by addition/removal of variables'); outside the property's op list. They are only driven "
+               "with the complete node lists of present, distinct variables (= remove_variables_from); with an absent node they raise "
+               "NetworkXError after the earlier nodes were removed (observed, not judged)",
+               "add_nodes_from is not driven with tuple-named variables (it reads a tuple first element as (node, attrdict))",
                "int variable labels, plus one stream with variables named like lag tuples (other label families: C15)",
                "edge/node attributes are not part of the property; 3-tuple (u, v, data) batch elements are not passed (the CPDAG batch "
                "method unpacks pairs)",
@@ -152,6 +169,14 @@ def _rand_history(rng, cls, nv, L0, length):
         if rng.random() < 0.06:
             u, v = _rand_edge(rng, cls, ly, nv, L, True)
             ops.append(["he", ly, u, v] if rng.random() < 0.5 else ["he", ly, v, u])
+        r2 = rng.random()
+        if r2 < 0.03:
+            ops.append([rng.choice(["rvs", "avs", "rns"]), [rng.choice(list(range(nv)) + [7]) for _ in range(rng.randint(0, 3))]])
+        elif r2 < 0.05:
+            ops.append(["ans", [_rand_node(rng, nv + 1, L) for _ in range(rng.randint(0, 3))]] if rng.random() < 0.5
+                       else ["an", _rand_node(rng, nv + 1, L)])
+        elif r2 < 0.08:
+            ops.append(["bad", rng.choice([b for b in BAD_CALLS if cls >= 3 or b != "or_None"])])
     return ops
 
 
@@ -221,6 +246,23 @@ def _order_histories(cls, L0):
                         yield [["ae", ly, u, v], [m[0]] + [x for x in m[1:]], list(t)]
 
 
+def _bulk_histories(cls, L0):
+    """bulk node / variable ops with unknown (7, 8) and repeated names placed first / in the middle / last, and malformed
+    calls, on a graph with edges; then an op that reads the result (copy, set_max_lag up, has_edge)"""
+    nl = len(LAYER_NAMES[cls])
+    for ly in range(nl):
+        prefix = [["ae", ly, [0, 1], [1, 0]], ["ae", ly, [1, L0], [2, 0]], ["ae", ly, [0, 0], [2, 0]]]
+        lists = [[7, 0], [0, 7], [0, 7, 1], [7, 8, 2], [2, 2, 1], [1, 2, 2], [0, 1, 0, 2], [], [7], [1]]
+        mids = [["rvs", l] for l in lists] + [["avs", l] for l in lists] + [["rns", l] for l in ([0], [2, 0], [1, 1, 7, 0], [])]
+        mids += [["ans", [[3, 0], [4, L0]]], ["ans", [[3, 0], [4, L0 + 1]]], ["ans", [[3, L0 + 1], [4, 0]]], ["ans", [[3, 1], [3, 1], [0, 0]]],
+                 ["ans", []], ["an", [3, L0]], ["an", [3, L0 + 1]], ["an", [0, 0]]]
+        mids += [["bad", b] for b in BAD_CALLS if cls >= 3 or b != "or_None"]
+        tails = [["cp"], ["sml", L0 + 1], ["he", ly, [0, 1], [1, 0]], ["rvs", [1, 7]]]
+        for m in mids:
+            for t in tails:
+                yield prefix + [list(m), list(t)]
+
+
 def _rand_init(rng, cls, nv, L):
     """valid constructor edge lists per layer (only layers without a cross-layer validity check get edges)"""
     nl = len(LAYER_NAMES[cls])
@@ -260,6 +302,13 @@ def gen_cases(tier, rng):
                     if cls >= 2 and k % 4 == 0:
                         c["_layers"] = "rot"
                     yield c
+                for k, ops in enumerate(_bulk_histories(cls, L0)):
+                    c = {"kind": "bulk", "cls": cls, "L": L0, "ops": ops}
+                    if k % 2:
+                        c["var"] = 1000 + k
+                    if cls >= 2 and k % 5 == 0:
+                        c["_layers"] = "rot"
+                    yield c
             for ops in _stale_histories(cls, L0):
                 # warm up once, right before the count-preserving edit (a query in between would refresh a memo)
                 yield {"kind": "stale", "cls": cls, "L": L0, "ops": ops, "warm_at": [3]}
@@ -277,7 +326,8 @@ def gen_cases(tier, rng):
         for i in range(nr // 2):
             nv = rng.choice([2, 3])
             L0 = rng.randint(1, 4)
-            yield {"kind": "rand-lagtuple", "cls": cls, "L": L0, "ops": _rand_history(rng, cls, nv, L0, length), "_lab": "lagtuple",
+            yield {"kind": "rand-lagtuple", "cls": cls, "L": L0,
+                   "ops": [o for o in _rand_history(rng, cls, nv, L0, length) if o[0] not in ("ans", "bad")], "_lab": "lagtuple",
                    "var": rng.randrange(1 << 30)}
             L0 = rng.randint(1, 4)
             yield {"kind": "rand-init", "cls": cls, "L": L0, "ops": _rand_history(rng, cls, nv, L0, length),
@@ -294,7 +344,10 @@ def _all_ops(case):
 def encode(case):
     ops = []
     for o in _all_ops(case):
-        ops.append([OPC[o[0]]] + list(o[1:]))
+        if o[0] == "bad":
+            ops.append([OPC["bad"]])
+        else:
+            ops.append([OPC[o[0]]] + list(o[1:]))
     return [case["cls"], case["L"], ops]
 
 
@@ -378,12 +431,56 @@ def _cedge(ordered, u, v):
     return (u, v)
 
 
+def _lagval(x):
+    """max_lag as an int; anything that is not a plain integer is reported as its repr (and so differs from the model)"""
+    import numbers
+    if isinstance(x, numbers.Integral) and not isinstance(x, bool):
+        return int(x)
+    return repr(x)
+
+
+BAD_CALLS = ["ae_None_u", "ae_None_v", "ae_scalar", "ae_1tuple", "ae_poslag", "ae_strlag", "re_None", "re_scalar", "aes_None",
+             "aes_good_None", "aes_good_1tuple", "aes_good_4tuple", "aes_arg_None", "aes_good_scalar", "res_good_None",
+             "res_good_1tuple", "sml_None", "sml_str", "sml_float_up", "sml_float_next", "sml_float_down", "sml_neg",
+             "an_None", "an_scalar", "an_1tuple", "an_poslag", "ans_good_None", "ans_good_scalar", "avs_None", "rvs_None",
+             "rv_unhashable", "av_unhashable", "or_None"]
+
+
+def _bad_call(G, name, kw, lab):
+    """malformed arguments, one position at a time; 'good' elements placed BEFORE the bad one in bulk lists"""
+    u, v = (lab(0), -1), (lab(1), 0)
+    good = ((lab(2), -1), (lab(2), 0))
+    L = G.max_lag
+    table = {
+        "ae_None_u": lambda: G.add_edge(None, v, *kw), "ae_None_v": lambda: G.add_edge(u, None, *kw),
+        "ae_scalar": lambda: G.add_edge(lab(0), v, *kw), "ae_1tuple": lambda: G.add_edge((lab(0),), v, *kw),
+        "ae_poslag": lambda: G.add_edge((lab(0), 1), v, *kw), "ae_strlag": lambda: G.add_edge((lab(0), "a"), v, *kw),
+        "re_None": lambda: G.remove_edge(None, v, *kw), "re_scalar": lambda: G.remove_edge(u, lab(1), *kw),
+        "aes_None": lambda: G.add_edges_from([None], *kw), "aes_good_None": lambda: G.add_edges_from([good, None], *kw),
+        "aes_good_1tuple": lambda: G.add_edges_from([good, (u,)], *kw),
+        "aes_good_4tuple": lambda: G.add_edges_from([good, (u, v, u, v)], *kw),
+        "aes_arg_None": lambda: G.add_edges_from(None, *kw), "aes_good_scalar": lambda: G.add_edges_from([good, 5], *kw),
+        "res_good_None": lambda: G.remove_edges_from([(u, v), None], *kw),
+        "res_good_1tuple": lambda: G.remove_edges_from([(u, v), (u,)], *kw),
+        "sml_None": lambda: G.set_max_lag(None), "sml_str": lambda: G.set_max_lag(str(L + 1)),
+        "sml_float_up": lambda: G.set_max_lag(L + 0.5), "sml_float_next": lambda: G.set_max_lag(float(L + 1)),
+        "sml_float_down": lambda: G.set_max_lag(L - 0.5), "sml_neg": lambda: G.set_max_lag(-1),
+        "an_None": lambda: G.add_node(None), "an_scalar": lambda: G.add_node(lab(3)), "an_1tuple": lambda: G.add_node((lab(3),)),
+        "an_poslag": lambda: G.add_node((lab(3), 1)),
+        "ans_good_None": lambda: G.add_nodes_from([(lab(3), 0), None]), "ans_good_scalar": lambda: G.add_nodes_from([(lab(3), 0), 5]),
+        "avs_None": lambda: G.add_variables_from(None), "rvs_None": lambda: G.remove_variables_from(None),
+        "rv_unhashable": lambda: G.remove_variable([lab(0)]), "av_unhashable": lambda: G.add_variable([lab(0)]),
+        "or_None": lambda: G.orient_uncertain_edge(None, v),
+    }
+    return table[name]()
+
+
 def _snap(G, cls, inv):
     def nd(n):
         return (inv(n[0]), -int(n[1]))
-    out = {"L": int(G.max_lag), "nodes": sorted(set(nd(n) for n in G.nodes))}
+    out = {"L": _lagval(G.max_lag), "nodes": sorted(set(nd(n) for n in G.nodes))}
     if cls <= 1:
-        out["layers"] = [[int(G.max_lag), sorted(set(_cedge(ORDERED[cls][0], nd(u), nd(v)) for u, v in G.edges))]]
+        out["layers"] = [[_lagval(G.max_lag), sorted(set(_cedge(ORDERED[cls][0], nd(u), nd(v)) for u, v in G.edges))]]
     else:
         layers = []
         names = LAYER_NAMES[cls]
@@ -392,7 +489,7 @@ def _snap(G, cls, inv):
             out["layer_names"] = list(gs.keys())
         for k, name in enumerate(names):
             lg = gs[name]
-            layers.append([int(lg.max_lag), sorted(set(_cedge(ORDERED[cls][k], nd(u), nd(v)) for u, v in lg.edges))])
+            layers.append([_lagval(lg.max_lag), sorted(set(_cedge(ORDERED[cls][k], nd(u), nd(v)) for u, v in lg.edges))])
             if sorted(set(nd(n) for n in lg.nodes)) != out["nodes"]:
                 out["layer_nodes_differ"] = name
         out["layers"] = layers
@@ -483,6 +580,27 @@ def run_impl(case):
                 G.remove_variable(lab(o[1]))
             elif k == "sml":
                 G.set_max_lag(o[1])
+            elif k in ("avs", "rvs", "ans", "rns"):
+                if k == "ans":
+                    arg = [node(n) for n in o[1]]
+                elif k == "rns":
+                    present = set(n[0] for n in G.nodes)
+                    arg = [n for x in dict.fromkeys(o[1]) if lab(x) in present for n in sorted(G.nodes, key=repr) if n[0] == lab(x)]
+                else:
+                    arg = [lab(x) for x in o[1]]
+                kind = rv.choice(["list", "list", "tuple", "gen", "iter"]) if rv is not None else "list"
+                before = list(arg)
+                passed = {"list": arg, "tuple": tuple(arg), "gen": (e for e in arg), "iter": iter(arg)}[kind]
+                try:
+                    {"avs": G.add_variables_from, "rvs": G.remove_variables_from, "ans": G.add_nodes_from,
+                     "rns": G.remove_nodes_from}[k](passed)
+                finally:
+                    if arg != before:
+                        extra["argument_mutated"] = True
+            elif k == "an":
+                G.add_node(node(o[1]))
+            elif k == "bad":
+                _bad_call(G, o[1], [] if cls <= 1 else [names[0]], lab)
             elif k == "or":
                 G.orient_uncertain_edge(node(o[1]), node(o[2]))
             elif k == "he":
@@ -594,6 +712,10 @@ def shrink(case):
         if o[0] in ("aes", "res") and len(o[2]) > 0:
             for j in range(len(o[2])):
                 yield dict(case, ops=ops[:i] + [[o[0], o[1], o[2][:j] + o[2][j + 1:]]] + ops[i + 1:])
+    for i, o in enumerate(ops):
+        if o[0] in ("avs", "rvs", "ans", "rns") and len(o[1]) > 0:
+            for j in range(len(o[1])):
+                yield dict(case, ops=ops[:i] + [[o[0], o[1][:j] + o[1][j + 1:]]] + ops[i + 1:])
     if case["L"] > 1:
         yield dict(case, L=case["L"] - 1)
     if case.get("var") is not None:
